@@ -20,6 +20,11 @@ def observe (env : Env) (n m : Nat) : String :=
 def c18Line (line : String) : String :=
   match tokens line with
   | ["clean", _, _, _, _, _] => "same"
+  | ["clean-s", _, _, _, _, _] => "same"
+  | ["cancel-s", _, _, _, _, _, k, n] =>
+    match k.toNat?, n.toNat? with
+    | some k, some n => observe ⟨some k, fun _ => .valid⟩ n 0
+    | _, _ => "bad-op"
   | ["args", _, _, _, _, _] => "ok"
   | ["cancel", _, _, _, _, _, k, n] =>
     match k.toNat?, n.toNat? with
